@@ -294,3 +294,23 @@ def main_check(check_name, tier, replay=None):
     print(f"{prop} {tier} seed={seed}: evaluations={cov['evaluations']} distinct={cov['distinct_nontrivial']} "
           f"verdict={cov['verdict']} wall={ev['wall_s']}s")
     return exit_code
+
+
+def repo_tests_under_monitors(timeout=900):
+    """Run the repository's own suite with the ambient monitors attached (thorough tiers of C05/C07/C14/C18)."""
+    tmp = tempfile.mkdtemp(prefix="rvmon-pt-")
+    try:
+        out = os.path.join(tmp, "plugin.json")
+        envv = dict(os.environ, RVMON_MONITORS="1", RVMON_PLUGIN_OUT=out, PYTHONDONTWRITEBYTECODE="1",
+                    PYTHONPATH=env.VERIF + os.pathsep + env.SRC + os.pathsep + env.DEPS)
+        p = subprocess.run([PY, "-B", "-m", "pytest", "-q", "-p", "no:cacheprovider", "-p", "rvmon.pytest_plugin", "--timeout=900",
+                            "--continue-on-collection-errors", "tests/python"], cwd=env.REPO, env=envv, capture_output=True, text=True, timeout=timeout)
+        tail = p.stdout.strip().splitlines()[-1] if p.stdout.strip() else p.stderr[-300:]
+        try:
+            with open(out) as f:
+                data = json.load(f)
+        except Exception:
+            data = None
+        return {"summary": tail, "plugin": data}
+    finally:
+        shutil.rmtree(tmp, ignore_errors=True)
